@@ -307,7 +307,7 @@ pub fn values_body(case: &ProgCase, obs: &mut Obs, builtin_only: bool) -> Result
                 format!(
                     "root #{k} `{}`: {what}; encoding={} model={}",
                     root.rust(&ctx),
-                    vsupport::hex(bytes),
+                    vcore::p_reg::truncate(&vsupport::hex(bytes), 240),
                     vcore::p_reg::truncate(&model.to_json(), 400)
                 )
             };
